@@ -17,7 +17,7 @@
      from a fresh parser, without closes, after which `inn.status = TUNNEL` and the next request data call returns STREAM_ERROR. -/
 import HtpModel.Lemmas.History
 import HtpModel.Lemmas.TunnelFrames
-import HtpModel.Props.C16
+import HtpModel.Lemmas.TunnelCalls
 namespace Htp.Conn
 open Htp Htp.Gen
 
@@ -300,7 +300,7 @@ theorem history_tunnel_req_silent (cfg : Cfg) (c0 : Conn) (calls : List Call) (h
   intro pre d hp hlen
   have hpre : pre <+: calls := List.IsPrefix.trans (List.prefix_append pre [Call.req d]) hp
   obtain ⟨ht, hg, _⟩ := history_tunnel_absorbing_req cfg c0 pre (hn.prefix hpre) h
-  exact C16.C16_tunnel_req cfg _ d hlen ht hg
+  exact tunnel_req_call cfg _ d hlen ht hg
 
 /-- **C16 over histories, response direction** -/
 theorem history_tunnel_res_silent (cfg : Cfg) (c0 : Conn) (calls : List Call) (hn : NoClose calls) (h : TunnelOut c0) :
@@ -313,7 +313,7 @@ theorem history_tunnel_res_silent (cfg : Cfg) (c0 : Conn) (calls : List Call) (h
   intro pre d hp hlen
   have hpre : pre <+: calls := List.IsPrefix.trans (List.prefix_append pre [Call.res d]) hp
   obtain ⟨ht, hg, _⟩ := history_tunnel_absorbing_res cfg c0 pre (hn.prefix hpre) h
-  exact C16.C16_tunnel_res cfg _ d hlen ht hg
+  exact tunnel_res_call cfg _ d hlen ht hg
 
 /-! ### the hypothesis `Quiet` of the other direction is met by every reachable state: the pair invariant over histories
 
